@@ -83,8 +83,8 @@ class Run:
         self.inst[var] = self.t.new(cls, ps, pw, idA, idB)
         return self
 
-    def start(self, var, stream):
-        self.msg[var] = self.t.start(self.inst[var], stream)
+    def start(self, var, stream, fail_after=None):
+        self.msg[var] = self.t.start(self.inst[var], stream, fail_after)
         return self.msg[var]
 
     def finish(self, var, m):
